@@ -798,6 +798,49 @@ static void bufr_free_datasubset( DataSubset *subset )
  * @author Vanh Souvanlasy
  * @ingroup message encode
  */
+/*
+ * If the subset contains new reference value definitions (operator 2 03 YYY), apply Table C 
+ * to it once more, installing each new reference value as it is met, the way the decoder does.
+ * Physical values do not depend on the reference; only their conversion to bits does.
+ */
+static void bufr_settle_new_refvalues( BUFR_Dataset *dts, DataSubset *subset )
+   {
+   BUFR_Sequence  *bsq;
+   BufrDDOp       *ddo;
+   ListNode       *node;
+   BufrDescriptor *bcv;
+   int             j, count, found, errcode;
+
+   count = bufr_datasubset_count_descriptor( subset );
+   found = 0;
+   for ( j = 0 ; (j < count) && !found ; j++ )
+      {
+      bcv = bufr_datasubset_get_descriptor( subset, j );
+      if (bcv->encoding.type == TYPE_CHNG_REF_VAL_OP) found = 1;
+      }
+   if (!found) return;
+
+   bsq = bufr_create_sequence(NULL);
+   for ( j = 0 ; j < count ; j++ )
+      bufr_add_descriptor_to_sequence( bsq, bufr_datasubset_get_descriptor( subset, j ) );
+   ddo = bufr_create_BufrDDOp( BUFR_STRICT );
+   errcode = 0;
+   node = lst_firstnode( bsq->list );
+   while ( node )
+      {
+      ddo->current = node;
+      bufr_apply_tables2node( ddo, bsq, dts->tmplte, node, &errcode );
+      bufr_apply_op_crefval( ddo, (BufrDescriptor *)node->data, dts->tmplte );
+      node = lst_nextnode( node );
+      }
+   if (errcode < 0)
+      dts->data_flag |= BUFR_FLAG_INVALID;
+   bufr_free_BufrDDOp( ddo );
+   lst_dellist( bsq->list );
+   bsq->list = NULL;
+   bufr_free_sequence( bsq );
+   }
+
 BUFR_Message *bufr_encode_message( BUFR_Dataset *dts , int x_compress )
    {
    BufrDescriptor       *bcv;
@@ -883,6 +926,15 @@ BUFR_Message *bufr_encode_message( BUFR_Dataset *dts , int x_compress )
       arr_add( msg->s3.desc_list, (char *)&descriptor ); ++it;
       }
 
+/*
+ * new reference values (2 03 YYY) are data: the encodings of the elements that follow them
+ * can only be settled now that every value is known
+ */
+   for (i = 0; i < nb_subsets ; i++)
+      {
+      subset = bufr_get_datasubset( dts, i );
+      bufr_settle_new_refvalues( dts, subset );
+      }
 /*
  * compute section 4 maximum length
  */
